@@ -154,7 +154,16 @@ func TestC17(t *testing.T) {
 	rapid.Check(t, func(rt *rapid.T) {
 		prog := gogen.Generate(rt, gogen.FlowProfile(off))
 		files := map[string]string{"main.go": prog.Main, "prelude.go": gogen.AnalysedPrelude}
+		// options of the taint problem that change which nodes the visitor follows (and therefore which summaries and
+		// closure links are created during the visit); the invariants hold for every problem
+		skipBound := gogen.Uniform(rt, 3, "unsafe-skip-bound-labels") == 0
+		implicit := gogen.Uniform(rt, 3, "fail-on-implicit-flow") == 0
 		for _, v := range []taintVariant{c01Variants[0], c01Variants[2]} {
+			v.Opts.SkipBoundLbls = skipBound
+			v.Opts.ImplicitFail = implicit
+			if skipBound {
+				rec.Count("runs_with_skip_bound_labels", 1)
+			}
 			l, err := core.LoadSource(files)
 			if err != nil {
 				rt.Fatalf("HARNESS: %v", err)
